@@ -54,6 +54,8 @@ def gen_cases(tier, seed):
         for logic in ("single", "or"):
             cases.append({"kind": "conc", "backend": backend, "logic": logic, "strategy": "dfs", "p": 2 if thorough else 1, "seed": seed, "budget": 300 if thorough else 25})
             cases.append({"kind": "conc", "backend": backend, "logic": logic, "strategy": "pct", "count": 2500 if thorough else 75, "seed": seed * 17 + 1, "budget": 300 if thorough else 25})
+    for i in range(6 if thorough else 2):
+        cases.append({"kind": "shared", "seed": seed * 30011 + 900 + i, "n": 40 if thorough else 8})
     nc = 20000 if thorough else 300
     perc = 250 if thorough else 25
     for i in range(nc // perc):
@@ -405,11 +407,60 @@ def run_cron(case, V, hooks, distinct):
         hooks[k] += 0
 
 
+def run_shared(case, V, hooks, distinct):
+    """two triggers share a condition: T1 on the event alone, T2 on the event AND a status; occurrences arrive in every order with loop
+    iterations in between.  Every trigger that depends on the shared occurrence launches exactly once; afterwards nothing stays pending."""
+    from pynenc.trigger.trigger_builder import TriggerBuilder
+    from vtasks import trig
+    rng = random.Random(case["seed"])
+    orders = [["A", "loop", "B", "loop"], ["B", "loop", "A", "loop"], ["A", "B", "loop"], ["A", "loop", "loop", "B", "loop", "loop"], ["B", "loop", "loop", "A", "loop"]]
+    with TmpDir() as td:
+        for n in range(case["n"]):
+            backend = ("mem", "sqlite")[n % 2]
+            order = orders[(n // 2) % len(orders)]
+            app = make_app(backend, td.db(f"s{n % 6}.sqlite"), app_id=f"c13s{case['seed']}_{n}", cached_status_time=0.0)
+            src_ok = app.task(trig.src_ok)
+            cfg = {"tasks": {"src_ok": src_ok, "src_other": app.task(trig.src_other), "src_fail": app.task(trig.src_fail)}}
+            t1 = app.task(trig.target, triggers=[TriggerBuilder().on_event("c13_event").with_args_from_event(trig.args_from_event)])
+            t2 = app.task(trig.target2, triggers=[TriggerBuilder().on_event("c13_event").on_status(src_ok, "success").with_logic("and")])
+            app.register_deferred_triggers()
+            ctx = runner_ctx("R", "runner-c13")
+            rounds = rng.choice([1, 2])
+            for rnd in range(rounds):
+                for step in order + ["loop"] * rng.choice([0, 1]):
+                    if step == "A":
+                        make_occurrence(app, cfg, "event", 100 + rnd, ctx); hooks["occurrences"] += 1
+                    elif step == "B":
+                        make_occurrence(app, cfg, "status", 200 + rnd, ctx); hooks["occurrences"] += 1
+                    else:
+                        flush_history(app)
+                        set_thread_ctx(app, ctx)
+                        try:
+                            app.trigger.trigger_loop_iteration()
+                        finally:
+                            clear_thread_ctx(app)
+                        hooks["loop_iterations"] += 1
+                n1 = len(list(app.orchestrator.get_task_invocation_ids(t1.task_id)))
+                n2 = len(list(app.orchestrator.get_task_invocation_ids(t2.task_id)))
+                hooks["launches_attributed"] += 2
+                wit = {"backend": backend, "order": order, "round": rnd + 1, "launches_single": n1, "launches_and": n2}
+                if n1 != rnd + 1:
+                    V.append({"sig": f"shared-condition:single-trigger-launched-{'fewer' if n1 < rnd + 1 else 'more'}", "what": f"{backend}: trigger on the event alone launched {n1} times after {rnd + 1} event occurrence(s) (order {order})", "witness": wit})
+                if n2 != rnd + 1:
+                    V.append({"sig": f"shared-condition:and-trigger-launched-{'fewer' if n2 < rnd + 1 else 'more'}", "what": f"{backend}: AND trigger (event AND status) launched {n2} times after {rnd + 1} occurrence(s) of each (order {order})", "witness": wit})
+                left = app.trigger.get_valid_conditions()
+                if left:
+                    V.append({"sig": "shared-condition:occurrence-left-pending", "what": f"{backend}: {len(left)} valid condition(s) still pending after both triggers ran (order {order})", "witness": wit})
+                distinct.append(["shared", tuple(order), backend, rnd])
+
+
 def run_case(case):
     hooks = Counter()
     V, distinct = [], []
     inconc = None
-    if case["kind"] == "acct":
+    if case["kind"] == "shared":
+        run_shared(case, V, hooks, distinct)
+    elif case["kind"] == "acct":
         run_acct(case, V, hooks, distinct)
     elif case["kind"] == "conc":
         inconc = run_conc(case, V, hooks, distinct)
